@@ -102,10 +102,16 @@ func (d *DurationStats) Record(nanoseconds int64) {
 }
 
 func (d *DurationStats) CollectLifetime() (IterationDurationsSnapshot, IterationDurationsSnapshot) {
-	running := d.running.Snapshot()
-	d.lifetime.Update(&d.running)
+	// take the running values with atomic swaps, so that an iteration recorded while
+	// collecting is carried over to the next collection instead of being erased by a reset
+	var collected IterationDurations
+	collected.count.Store(d.running.count.Swap(0))
+	collected.sum.Store(d.running.sum.Swap(0))
+	collected.min.Store(d.running.min.Swap(0))
+	collected.max.Store(d.running.max.Swap(0))
 	verifhook.Yield("progress.collect.mid")
-	d.running.Reset()
 
-	return running, d.lifetime.Snapshot()
+	d.lifetime.Update(&collected)
+
+	return collected.Snapshot(), d.lifetime.Snapshot()
 }
